@@ -111,6 +111,74 @@ instance : RMap Option := ⟨fun o g => o.map g⟩
 def map [RMap f] (x : f α) (g : α → β) : f β := RMap.map x g
 
 def filter_map (l : List α) (g : α → Option β) : List β := l.filterMap g
+/-- `Ordering::then_with`: the closure is only consulted on `Equal` -/
+@[simp] def then_with (o : Ordering) (g : Unit → Ordering) : Ordering :=
+  match o with
+  | .eq => g ()
+  | .lt => .lt
+  | .gt => .gt
+/-- `Ordering::then` -/
+@[simp] def ord_then (o o2 : Ordering) : Ordering := then_with o (fun _ => o2)
+/-- `bool::then` -/
+@[simp] def bool_then (b : Bool) (g : Unit → α) : Option α := if b then some (g ()) else none
+/-- `bool::then_some` -/
+@[simp] def then_some (b : Bool) (a : α) : Option α := if b then some a else none
+/-- `Option::is_some_and` -/
+@[simp] def is_some_and (o : Option α) (p : α → Bool) : Bool :=
+  match o with
+  | some a => p a
+  | none => false
+/-- `Option::is_none_or` -/
+@[simp] def is_none_or (o : Option α) (p : α → Bool) : Bool :=
+  match o with
+  | some a => p a
+  | none => true
+/-- `Option::and_then` -/
+@[simp] def and_then (o : Option α) (g : α → Option β) : Option β :=
+  match o with
+  | some a => g a
+  | none => none
+/-- `Option::or` -/
+@[simp] def opt_or (a b : Option α) : Option α :=
+  match a with
+  | some x => some x
+  | none => b
+/-- `Option::or_else` -/
+@[simp] def or_else (a : Option α) (g : Unit → Option α) : Option α :=
+  match a with
+  | some x => some x
+  | none => g ()
+/-- `Option::map_or_else` -/
+@[simp] def map_or_else (o : Option α) (d : Unit → β) (g : α → β) : β :=
+  match o with
+  | some a => g a
+  | none => d ()
+/-- what `Iterator::flat_map` iterates over: the closure may return an iterator / `Vec` or an `Option` -/
+class RIntoList (c : Type) (α : outParam Type) where
+  toList : c → List α
+instance : RIntoList (List α) α := ⟨id⟩
+instance : RIntoList (Option α) α := ⟨Option.toList⟩
+/-- `Iterator::flat_map` -/
+def flat_map [RIntoList c β] (l : List α) (g : α → c) : List β := l.flatMap (fun a => RIntoList.toList (g a))
+/-- `Iterator::find_map` -/
+def find_map (l : List α) (g : α → Option β) : Option β := l.findSome? g
+/-- `Iterator::last` -/
+def iter_last (l : List α) : Option α := l.getLast?
+/-- `Iterator::count` -/
+def iter_count (l : List α) : Nat := l.length
+/-- `Iterator::chain` -/
+def chain (a b : List α) : List α := a ++ b
+/-- `Iterator::fold` -/
+def fold (l : List α) (init : β) (g : β → α → β) : β := l.foldl g init
+/-- `Iterator::zip` -/
+def zip (a : List α) (b : List β) : List (α × β) := a.zip b
+/-- `Iterator::skip` / `take` -/
+def skip (l : List α) (n : Nat) : List α := l.drop n
+def take (l : List α) (n : Nat) : List α := l.take n
+/-- `<[T]>::last` -/
+def last (l : List α) : Option α := l.getLast?
+/-- `<[T]>::contains` -/
+def contains [REq α] (l : List α) (a : α) : Bool := l.any (fun x => REq.eq x a)
 def find (l : List α) (p : α → Bool) : Option α := l.find? p
 def iter_any (l : List α) (p : α → Bool) : Bool := l.any p
 def iter_all (l : List α) (p : α → Bool) : Bool := l.all p
